@@ -72,6 +72,13 @@ def attrsOf (sch : Schema) (e : EntId) : List Attr :=
     | some d => d.ent == e
     | none => false
 
+/-- class table: for every class (entity or subclass) its `_attrs_` restricted to relationship attributes, inherited ones
+    included, in the order Pony iterates them (attributes of the base class first) -/
+abbrev _root_.PonyVerif.Model.Cascade.ClassTable := EntId → List Attr
+
+/-- the class table of a schema without inheritance -/
+def classTable (sch : Schema) : PonyVerif.Model.Cascade.ClassTable := fun e => sch.attrsOf e
+
 def isCascade (sch : Schema) (a : Attr) : Bool :=
   match sch.side a with
   | some d => d.cascade
@@ -225,16 +232,16 @@ def refStep (sch : Schema) (guard : Bool) (del : ObjId → Store → R) (o : Obj
 
 /-- `Entity._delete_(obj=o, undo_funcs)`.  `P` = the objects whose `_delete_` is in progress further up the call stack
     (`cache.objects_being_deleted` of the guarded tree; carried along but not consulted when `guard = false`). -/
-def delete (sch : Schema) (guard : Bool) : Nat → List ObjId → ObjId → Store → R
+def delete (sch : Schema) (ct : ClassTable) (guard : Bool) : Nat → List ObjId → ObjId → Store → R
   | 0, _, _, _ => .error .recursionError
   | fuel + 1, P, o, s =>
     if guard && P.contains o then .ok s else                                 -- (guarded tree) if obj in objects_being_deleted: return
     if !s.alive o then .ok s else                                            -- status in del_statuses: return
-    let attrs := sch.attrsOf (s.ent o)
-    match iterE (collStep sch (fun x s => delete sch guard fuel (o :: P) x s) o) attrs s with
+    let attrs := ct (s.ent o)                                                -- obj._attrs_ of the object's real class
+    match iterE (collStep sch (fun x s => delete sch ct guard fuel (o :: P) x s) o) attrs s with
     | .error e => .error e
     | .ok s1 =>
-      match iterE (refStep sch guard (fun x s => delete sch guard fuel (o :: P) x s) o) attrs s1 with
+      match iterE (refStep sch guard (fun x s => delete sch ct guard fuel (o :: P) x s) o) attrs s1 with
       | .error e => .error e
       | .ok s2 =>
         if !s2.alive o then .ok s2                                           -- a nested _delete_ of this object (cascade cycle) already finished
@@ -244,9 +251,9 @@ def delete (sch : Schema) (guard : Bool) : Nat → List ObjId → ObjId → Stor
 def fuelOf (sch : Schema) (s : Store) : Nat := (2 * sch.length + 2) * (s.n + 1)
 
 /-- `Entity.delete()`: a failing call runs the undo list, i.e. the store is what it was -/
-def deleteTop (sch : Schema) (guard : Bool) (s : Store) (o : ObjId) : Store × Option Err :=
+def deleteTop (sch : Schema) (ct : ClassTable) (guard : Bool) (s : Store) (o : ObjId) : Store × Option Err :=
   if o < s.n then
-    match delete sch guard (fuelOf sch s) [] o s with
+    match delete sch ct guard (fuelOf sch s) [] o s with
     | .ok s' => (s', none)
     | .error e => (s, some e)
   else (s, some .noSuchObject)
@@ -326,13 +333,13 @@ def dbDelete (sch : Schema) (db : Db) (rows : List ObjId) : Option Db :=
 
 /-! ### executable observations (driver, `example`s) -/
 
-def refsOf (sch : Schema) (s : Store) (o : ObjId) : List (Attr × Option ObjId) :=
-  ((sch.attrsOf (s.ent o)).filter fun a => match sch.side a with
+def refsOf (sch : Schema) (ct : ClassTable) (s : Store) (o : ObjId) : List (Attr × Option ObjId) :=
+  ((ct (s.ent o)).filter fun a => match sch.side a with
     | some d => !d.isColl
     | none => false).map fun a => (a, s.ref o a)
 
-def collsOf (sch : Schema) (s : Store) (o : ObjId) : List (Attr × List ObjId) :=
-  ((sch.attrsOf (s.ent o)).filter fun a => match sch.side a with
+def collsOf (sch : Schema) (ct : ClassTable) (s : Store) (o : ObjId) : List (Attr × List ObjId) :=
+  ((ct (s.ent o)).filter fun a => match sch.side a with
     | some d => d.isColl
     | none => false).map fun a => (a, s.members o a)
 
